@@ -6,6 +6,7 @@ CONSTANT RestoreMode = "replace"
 CONSTANT MaxLog = 4
 CONSTANT MaxSnaps = 2
 CONSTANT MaxDowns = 2
+CONSTANT MaxFaults = 0
 CONSTANT MaxInstalls = 2
 VIEW View
 INVARIANT TypeOK
